@@ -3,7 +3,7 @@ CONSTANTS
   MaxN = 3
   Templates <- TplC17d
   Bundles <- NoBundle
-  Ctxs <- WideTight
+  Ctxs <- WideTightNone
   Hists <- NoHist
   BackoffCfgs <- NoBoCfgs
   Attempts <- BoAttempts
